@@ -146,6 +146,7 @@ package sessiontracker
 //@   ensures[open] old(Opens(o, event)) && !old(has(PMap(o), atoival(event.Process.PID))) ==> result == nil && len(out) == old(len(out))
 //@   |   && has(SMap(o), event.Session) && fresh(SMap(o)[event.Session]) && !SMap(o)[event.Session].hasRUL && SMap(o)[event.Session].srcPID == atoival(event.Process.PID)
 //@   |   && len(SMap(o)[event.Session].cached) == 1 && SMap(o)[event.Session].cached[0] == event
+//@   ensures[added] old(Opens(o, event)) && result == nil && has(SMap(o), event.Session) ==> old(clock) <= SMap(o)[event.Session].added && SMap(o)[event.Session].added <= clock
 //@   ensures[openbound] old(Opens(o, event)) && old(has(PMap(o), atoival(event.Process.PID))) && result == nil ==> len(out) == old(len(out)) + 1
 //@   |   && Rendered(old(len(out)), old(PMap(o)[atoival(event.Process.PID)].Source), event)
 //@   |   && has(SMap(o), event.Session) && SMap(o)[event.Session].hasRUL && !has(PMap(o), atoival(event.Process.PID))
